@@ -173,6 +173,12 @@ pub fn gen_c13(seed: u64, tier: &str) -> Value {
             }
             conns.push(json!({"proc": r.below(3), "dst": dst, "start_ms": r.below(30), "pipeline": r.chance(1, 5), "reqs": reqs}));
         }
+        // clients that connect and vanish at once (abortive reset or orderly close, with no request), landing before,
+        // while or after the listener gets to their socket
+        for _ in 0..r.below(3) {
+            let how = format!("{}:{}:{}", *r.pick(&["reset_after_send", "reset_after_send", "fin_after_send"]), *r.pick(&[0u64, 0, 1]), r.below(12));
+            conns.push(json!({"proc": r.below(3), "dst": *r.pick(&["imds", "wire", "direct"]), "start_ms": r.below(30), "close": how, "reqs": []}));
+        }
         steps.push(json!({"t": "clients", "conns": conns}));
         if r.chance(1, 3) {
             steps.push(json!({"t": "sleep", "ms": *r.pick(&[61_000u64, 130_000])}));
